@@ -84,6 +84,9 @@ fn main() {
             let w: usize = args[6].parse().unwrap();
             let ncpu = std::thread::available_parallelism().map(|n| n.get()).unwrap_or(1);
             simrt::pin_to_core(w % ncpu);
+            if std::env::var("VERIF_TIER").map(|t| t == "thorough").unwrap_or(false) {
+                gen::SCALE.store(2, std::sync::atomic::Ordering::Relaxed);
+            }
             let st = worker::run_chunk(prop, seed, from, to, args.get(7).map(|s| s.as_str()));
             println!("{}", serde_json::to_string(&st).unwrap());
         }
